@@ -39,7 +39,8 @@ def main():
         for r in rows:
             f.write("| " + " | ".join(str(x) for x in r) + " |\n")
         f.write(f"\n{len(rows)} confirmed changes; {len(rows) - missed} were caught by the checks as they stood when the change arrived, {missed} were missed at first and led to the "
-                "strengthening named in the history column, after which all are caught by the quick tier.\n")
+                "strengthening named in the history column, after which all are caught by the quick tier - by the check of their own property except C03-r6 (caught by C14), "
+                "C07-r5 (C18) and C12-r7 (C13), whose code site belongs to the other property.\n")
     print(len(rows), "rows,", missed, "missed at first")
 
 
